@@ -195,7 +195,7 @@ def run_indexrace(ck, prop, tier):
     ck.require_model_ok(r, 'IndexRace: read and patch under the index lock, 3 writers on one key plus a batch')
     log('  TLC IndexRace: %d distinct / %d generated, %.0fs' % (r['distinct'], r['generated'], r['wall']))
     tot = {'behaviours': 0, 'steps': 0, 'violations': 0, 'drift': 0}
-    for stype in (['kv', 'doc'] if (thorough or prop == 'C17') else ['kv']):
+    for stype in (['kv', 'doc', 'log'] if (thorough or prop == 'C17') else ['kv']):
         bs, adversarial = [], []
         for inv in ('RestLWW', 'StaysShown'):
             m = vlib.tlc_check('MCIndexRace.tla', ir_cfg('IndexRace.mutant.cfg', 2, 'KeySame', inv == 'StaysShown', False, invs=inv, props=''), '%s-ir-mutant-%s' % (prop, inv))
@@ -410,6 +410,8 @@ def c11(prop, tier):
     run_replicator(ck, prop, tier, 'A', 2, 100 if thorough else 16, 40)
     # a replica that has been restarted: requests for heads it holds in its cache arrive before, while and after its own Load (DAG F)
     run_replicator(ck, prop, tier, 'F', 1, 60 if thorough else 10, 40)
+    # a request that fails part-way: its announcement lists a valid head before one whose hash does not match (DAG C of C10)
+    run_replicator(ck, prop, tier, 'C', 1, 40 if thorough else 6, 40)
     return ck.finish()
 
 
